@@ -463,8 +463,33 @@ def targets(eng):
     def _nat(eng_, st, args, kwargs):
         return ok(st, st.heap[st.ghost_oid].f["now"])
     cs = contracts()
+    # The postconditions speak about the path's own event log (timers armed, tasks created, user coroutines called): such a
+    # clause cannot be *assumed* at a call site, where the events have not happened on the caller's path.  Callers therefore run
+    # the callee's body (its preconditions are still obligations of the call); every function is also verified as its own target.
+    from pyvc.contracts import oblige as _oblige
+
+    def callee(c):
+        d = Contract(c.target, self_type="inst[ReconnectLogic]")
+
+        def model(eng_, st, fv, args, kwargs, c=c):
+            out = []
+            eng_.push_frame(st, None, fv.module, fv.qualname + "@requires")
+            for s, r in eng_.bind_args(fv, args, kwargs, st):
+                if isinstance(r, Raised):
+                    s.frames.pop()
+                    out.append((s, r))
+                    continue
+                for cl in c.requires:
+                    g = eval_clause(eng_, s, cl.node)
+                    _oblige(eng_, s, g, f"call:{fv.qualname}/{cl.name}", kind="auxiliary")
+                    s.assume(g)
+                s.frames.pop()
+                out.extend(eng_.inline_call(fv, args, kwargs, s))
+            return out
+        d.model = model
+        return d
     for c in cs:
-        eng.contracts[c.target] = c
+        eng.contracts[c.target] = callee(c)
     eng.inline.update({RL + "ReconnectLogic." + n for n in (
         "_async_set_connection_state_while_locked", "_async_set_connection_state_without_lock", "_async_log_connection_error", "_cancel_connect_timer",
         "_cancel_connect_task", "_cancel_connect", "_start_zc_listen", "_stop_zc_listen", "_connect_from_zeroconf", "_remove_stop_task")})
